@@ -216,6 +216,24 @@ theorem safe_pos (thr : ℝ) (st : Store ℝ 1 1 2) (h : Agree st) :
       simp at hsc
 
 
+/-- every node's plain partial has a positive entry (the hypothesis of the `…_of_plain_pos` theorems) -/
+theorem plain_pl (st : Store ℝ 1 1 2) (h : Agree st) :
+    ∀ t ∈ ts, ∀ n, ∃ k s, 0 < ((peel 0 noTips M st ts).get t.1).get n k s := by
+  have h3 : StrictPos (combine 0 noTips M st 0 1) :=
+    combine_strictPos M M_pos st 0 1 (tips_nonnegPos st h 0 (by omega)) (tips_nonnegPos st h 1 (by omega))
+  intro t ht n
+  simp only [ts, List.mem_cons, List.not_mem_nil, or_false] at ht
+  rcases ht with rfl | rfl
+  · refine ⟨0, 0, ?_⟩
+    have : (peel 0 noTips M st ts).get 3 = combine 0 noTips M st 0 1 := by simp [peel, ts, peelStep]
+    show 0 < ((peel 0 noTips M st ts).get 3).get n 0 0
+    rw [this]; exact h3 n 0 0
+  · refine ⟨0, 0, ?_⟩
+    have hn : n = 0 := Subsingleton.elim _ _
+    subst hn
+    show 0 < ((peel 0 noTips M st ts).get 4).get 0 0 0
+    rw [plain_root st h]; norm_num
+
 /-! the tip-states path on the same data: tips show states 0, 1, 0 -/
 def states : Nat → Fin 1 → Nat := fun i _ => if i = 1 then 1 else 0
 
